@@ -113,6 +113,18 @@ CHECKS = {
         "no colour-correction profile; BFS depth 3 (quick) / 4 (thorough), batched search depth 6 / 8.",
    technique="explicit-state BFS of the implementation with a reference model (replay + fork snapshots)",
    ref="3/C09"),
+ "C10": dict(cat="model_checking",
+   text="Explicit-state BFS over enable/disable/sw_flip/sw_release requests, autofire hits (timeout protection), kickback "
+        "and game lifecycle transitions (start, drain, tilt, slam tilt, service enter/exit, end game) with time, for "
+        "dual-wound, single-wound and EOS/software-repulse flippers and plain/delayed/timeout-protected autofires on a "
+        "fake game with the real tilt mode; after every transition the platform rule table must equal the rules of the "
+        "enabled devices (wiring table), set_*_rule never installs a live rule twice, requests and lifecycle events "
+        "decide the enabled state, and no flipper/autofire rule or energised flipper coil exists while no ball is in play.",
+   note="Trusted: virtual platform rule table + call counting wrappers, wiring table in props/c10.py; the virtual platform "
+        "gets a recording set_delayed_pulse_on_hit_rule. No ball search / real ball devices in this machine; BFS depth "
+        "5 (quick) / 7 (thorough) per device group with fingerprint merge audit.",
+   technique="explicit-state BFS of the implementation with a reference model (replay + fork snapshots)",
+   ref="3/C10"),
 }
 NOT_YET = "check not built yet in this revision (planned, see DESIGN.md section 7)"
 
